@@ -18,12 +18,15 @@ func validateMaps(env *Environment, errorSink *validation.ErrorSink) *Environmen
 		t := GetUnderlyingType(m.KeyType)
 		if st, ok := t.(*SimpleType); ok {
 			switch st.ResolvedDefinition.(type) {
-			case nil, PrimitiveDefinition:
+			case nil, PrimitiveDefinition, *GenericTypeParameter:
+				// nil: the type could not be resolved, which has already been reported
+				self.VisitChildren(node)
 				return
 			}
 		}
 
 		errorSink.Add(validationError(m, "map key type must be a primitive scalar type"))
+		self.VisitChildren(node)
 	})
 
 	return env
